@@ -278,12 +278,14 @@ class FakeOS(object):
             mode = 0o100755
             if path.startswith('/sim/noexec'):
                 mode = 0o100644
+            if path.startswith('/sim/dir'):
+                mode = 0o040755
             return _real_os.stat_result((mode, 1, 1, 1, 0, 0, 0, 0, 0, 0))
         return _real_os.stat(path)
 
     def access(self, path, mode):
         if path.startswith('/sim/'):
-            return True
+            return not path.startswith('/sim/noperm')     # executable bits set, but not for this user
         return _real_os.access(path, mode)
 
 
